@@ -147,7 +147,9 @@ def level(cell):
                     runs += 1
                     if v2 and len(out) < 3:
                         out.append(v2)
-    return {'v': out, 'n': runs, 'transitions': runs, 'traces': runs, 'nt': cell, 'obs': sorted(outcomes)[:3], 'extra': {'schedules_explored': runs}}
+    return {'v': out, 'n': runs, 'transitions': runs, 'traces': runs, 'nt': cell, 'obs': sorted(outcomes)[:3], 'extra': {'schedules_explored': runs},
+            'sample': {'bodies': BODYSETS[bs], 'handover_priority': order, 'first_preemption_at_point': i, 'point': list(base.points[i]),
+                       'points_in_base_run': len(base.points), 'schedules_run_in_this_cell': runs, 'oracle': 'each thread result bit-identical to its solo run'}}
 
 
 def monitor(cell):
